@@ -51,6 +51,12 @@ fn main() {
                 None => 0,
             }
         }
+        Some("mt-delete") if args.len() >= 3 => {
+            // experiment: mt-delete <seed> <rounds>
+            let (n, why) = vcheck::push::run_mt_delete_storm(args[1].parse().unwrap_or(1), args[2].parse().unwrap_or(300), 6);
+            println!("streams={} stuck={:?}", n, why);
+            0
+        }
         Some("fuzz-decode") if args.len() >= 3 => {
             // turn a libFuzzer artifact into a replay file for property args[1]
             let bytes = std::fs::read(&args[2]).expect("artifact");
